@@ -174,33 +174,53 @@ Proof.
     rewrite (vnumeric_nil (default_val env dv_fuel) None _ fname k _ _ _ (Hsingle _)). reflexivity.
 Qed.
 
-(* a scalar object of nesting depth at most n *)
+(* a property given by reference to a definition *)
+Definition ref_prop (p : schema) (x : str) : Prop :=
+  exists c, p = Sch c [] None false None [] [] /\ c_ref c = Some x /\ c_enum c = None /\ c_default c = None.
+
+(* fuel: three generator steps, three decoding steps and two validation steps per level (a reference costs one decoding and one validation
+   step, an optional field one decoding step, array items one of each at the innermost level) *)
+Fixpoint fuelG (n a : nat) : nat := match n with O => S (S (S a)) | S m => S (S (S (fuelG m a))) end.
+Fixpoint fuelD (n b : nat) : nat := match n with O => S (S (S b)) | S m => S (S (S (fuelD m b))) end.
+Fixpoint fuelV (n c : nat) : nat := match n with O => S (S (S c)) | S m => S (S (fuelV m c)) end.
+
+(* a scalar object of nesting depth at most n: its properties are leaves, such objects of depth below n written inline, or references to
+   definitions that are such objects of depth below n (the definition is the same one for the generator and for the reference semantics, and
+   the environment of declared types holds the type generated for it) *)
 Fixpoint sobj (n : nat) (s : schema) : Prop :=
   plain_object s /\ c_types (s_con s) = [SObject] /\ s_addl s = None /\ s_addl_false s = false /\
   NoDup (map fst (s_props s)) /\ incl (c_required (s_con s)) (map fst (s_props s)) /\
   NoDup (map fst (prop_names idf (s_props s))) /\
   (forall fname kp, In (fname, kp) (prop_names idf (s_props s)) -> fname <> []) /\
   forall k p, In (k, p) (s_props s) ->
-    leaf p \/ match n with O => False | S m => sobj m p /\ c_default (s_con p) = None end.
+    leaf p \/
+    match n with
+    | O => False
+    | S m =>
+        (sobj m p /\ c_default (s_con p) = None) \/
+        (exists x d u a bb, ref_prop p x /\ lookup x defs = Some d /\ lookup x sdefs = Some d /\ sobj m d /\ idf x <> [] /\
+                            lookup x env = Some u /\ gen (fuelG m a) MDeclared (Some x) false d (idf x) = Done (u, bb))
+    end.
 
 (* the documents the statement is about: no nulls, ASCII strings, integer literals inside Go's int, distinct keys - at every level *)
 Fixpoint dok (n : nat) (s : schema) (kv : list (str * json)) : Prop :=
   NoDup (map fst kv) /\
   forall k p x, In (k, p) (s_props s) -> lookup k kv = Some x ->
     x <> JNull /\ (str_leaf p -> forall s0, x = JStr s0 -> utf8_len s0 = length s0) /\ (int_leaf p -> int_value x) /\ (arr_leaf p -> arr_value x) /\
-    match n with O => True | S m => forall kv', x = JObj kv' -> sobj m p -> dok m p kv' end.
-
-(* fuel: three generator steps, two decoding steps and one validation step per level (and one more of each for array items at the innermost level) *)
-Fixpoint fuelG (n a : nat) : nat := match n with O => S (S (S a)) | S m => S (S (S (fuelG m a))) end.
-Fixpoint fuelD (n b : nat) : nat := match n with O => S (S (S b)) | S m => S (S (fuelD m b)) end.
-Fixpoint fuelV (n c : nat) : nat := match n with O => S (S (S c)) | S m => S (fuelV m c) end.
+    match n with
+    | O => True
+    | S m => forall kv', x = JObj kv' ->
+               (sobj m p -> dok m p kv') /\ (forall y d, ref_prop p y -> lookup y sdefs = Some d -> dok m d kv')
+    end.
 
 Lemma fuelD_S n b : S (fuelD n b) = fuelD n (S b).
 Proof. induction n as [|m IH]; cbn [fuelD]; [reflexivity|]. rewrite <- IH. reflexivity. Qed.
-Lemma fuelD_SS n b : exists x, fuelD n b = S (S x).
-Proof. destruct n; cbn [fuelD]; eexists; reflexivity. Qed.
-Lemma fuelV_S n c : exists x, fuelV n c = S (S x).
-Proof. induction n as [|m [x IH]]; cbn [fuelV]; [eexists; reflexivity|]. rewrite IH. eexists; reflexivity. Qed.
+Lemma fuelV_Sc n c : S (fuelV n c) = fuelV n (S c).
+Proof. induction n as [|m IH]; cbn [fuelV]; [reflexivity|]. rewrite <- IH. reflexivity. Qed.
+Lemma fuelV_SS n c : exists x, fuelV n c = S (S x).
+Proof. destruct n; cbn [fuelV]; eexists; reflexivity. Qed.
+Lemma fuelG_SSS n a : exists x, fuelG n a = S (S (S x)).
+Proof. destruct n; cbn [fuelG]; eexists; reflexivity. Qed.
 
 (* the type declared for a scalar object is a named struct *)
 Lemma declared_struct_shape f self sub s scope t b :
@@ -246,12 +266,8 @@ Proof.
   - destruct Hl as (c & it & -> & _ & _ & _ & Hd & _); exact Hd.
 Qed.
 
-Lemma sobj_default_none n s k p : sobj n s -> In (k, p) (s_props s) -> c_default (s_con p) = None.
-Proof.
-  intros Hs Hin. destruct n; cbn [sobj] in Hs; destruct Hs as (_ & _ & _ & _ & _ & _ & _ & _ & Hprops);
-    destruct (Hprops k p Hin) as [Hl|Hnest]; try contradiction; try exact (leaf_default_none p Hl).
-  exact (proj2 Hnest).
-Qed.
+Lemma ref_default_none p x : ref_prop p x -> c_default (s_con p) = None.
+Proof. intros (c & -> & _ & _ & Hd). exact Hd. Qed.
 
 Lemma valid_non_object fv s x : c_ref (s_con s) = None -> c_types (s_con s) = [SObject] ->
   (forall kv, x <> JObj kv) -> valid (S fv) s x = false.
@@ -313,6 +329,74 @@ Proof.
     + exact (Hother fname k p ty bp Hin Hinp Hoth Hfn Hgen).
 Qed.
 
+(* what is generated for a reference to an object definition, and how such a field decodes *)
+Lemma gen_ref_prop f self sc p x d ty bp :
+  ref_prop p x -> lookup x defs = Some d -> plain_object d -> c_types (s_con d) = [SObject] ->
+  gen (S (S (S (S f)))) MInline self false p sc = Done (ty, bp) -> ty = TRef x.
+Proof.
+  intros (c & -> & Hr & He & _) Hl Pd Pty H. pose proof Pd as (_ & _ & _ & Pprops & _).
+  cbn [Gen.gen s_con] in H. rewrite He, Hr in H. rewrite Hl, Pty in H. cbn [rbind] in H. unfold declare in H. cbn [is_named_ty] in H. inversion H. reflexivity.
+Qed.
+
+Lemma def_not_nillable x d self : lookup x defs = Some d -> plain_object d -> ref_nillable defs self x = false.
+Proof.
+  intros Hl (He & Hr & Ht & Hp & _). unfold ref_nillable.
+  assert (Hd : def_nillable defs (S (length defs)) x = false).
+  { cbn [def_nillable]. rewrite Hl, He, Hr. destruct (determine_type (s_con d)) as [ty ptr]. cbn [fst] in Ht. subst ty.
+    destruct (s_props d); [contradiction Hp; reflexivity|reflexivity]. }
+  destruct self as [me|]; [destruct (str_eqb me x); [reflexivity|exact Hd]|exact Hd].
+Qed.
+
+Lemma ref_field_present fd c self fname k p x d u b kv v :
+  ref_prop p x -> lookup x defs = Some d -> plain_object d -> lookup x env = Some u ->
+  fname <> [] -> lookup k kv = Some v -> v <> JNull ->
+  field_ok (dec (S (S fd))) zero (default_val env dv_fuel) kv (pair_of (make_field defs c self fname k p (TRef x) b)) =
+  is_ok (dec (if mem k (c_required c) then S fd else fd) u v).
+Proof.
+  intros Hrp Hl Pd Hu Hn Hk Hnull. pose proof (ref_default_none p x Hrp) as Hd. unfold make_field, pair_of. rewrite Hd.
+  destruct (mem k (c_required c)).
+  - unfold field_ok. cbn [fst snd f_json f_ty f_name field_validators]. rewrite Hk. cbn [Exec.dec]. rewrite Hu.
+    destruct (dec (S fd) u v); reflexivity.
+  - cbn [nillable_ty]. rewrite (def_not_nillable x d self Hl Pd).
+    unfold field_ok. cbn [fst snd f_json f_ty f_name field_validators]. rewrite Hk.
+    destruct v; try contradiction; cbn [Exec.dec]; rewrite Hu; destruct (dec fd u _); reflexivity.
+Qed.
+
+Lemma ref_field_absent fd c self fname k p x d b kv :
+  ref_prop p x -> lookup x defs = Some d -> plain_object d ->
+  lookup k kv = None -> mem k (c_required c) = false ->
+  field_ok (dec fd) zero (default_val env dv_fuel) kv (pair_of (make_field defs c self fname k p (TRef x) b)) = true.
+Proof.
+  intros Hrp Hl Pd Hk Hm. pose proof (ref_default_none p x Hrp) as Hd. unfold make_field, pair_of. rewrite Hd, Hm. cbn [nillable_ty].
+  rewrite (def_not_nillable x d self Hl Pd). unfold field_ok. cbn [fst snd f_json f_ty f_name field_validators]. rewrite Hk. reflexivity.
+Qed.
+
+Lemma valid_ref_prop fv p x d v : ref_prop p x -> lookup x sdefs = Some d -> valid (S fv) p v = valid fv d v.
+Proof. intros (c & -> & Hr & _) Hl. cbn [Valid.valid s_con]. rewrite Hr, Hl. reflexivity. Qed.
+
+Lemma sobj_facts n s : sobj n s -> plain_object s /\ c_types (s_con s) = [SObject] /\ s_addl s = None.
+Proof. destruct n; cbn [sobj]; intros (Pp & Pty & Pa & _); (split; [exact Pp|split; [exact Pty|exact Pa]]). Qed.
+
+Lemma leaf_not_object p : leaf p -> c_types (s_con p) = [SObject] -> False.
+Proof.
+  intros [Hl|[Hl|[Hl|[Hl|Hl]]]] Pty;
+    [destruct Hl as (c0 & -> & Ht & _)|destruct Hl as (c0 & m0 & -> & Ht & _)|destruct Hl as (c0 & -> & Ht & _)|destruct Hl as (c0 & -> & Ht & _)|destruct Hl as (c0 & it0 & -> & Ht & _)];
+    cbn [s_con] in Pty; rewrite Ht in Pty; discriminate.
+Qed.
+
+Lemma leaf_not_ref p x : leaf p -> ref_prop p x -> False.
+Proof.
+  intros Hl (c & E & Hr & _). subst p.
+  destruct Hl as [Hl|[Hl|[Hl|[Hl|Hl]]]];
+    [destruct Hl as (c0 & E & _ & Hr0 & _)|destruct Hl as (c0 & m0 & E & _ & Hr0 & _)|destruct Hl as (c0 & E & _ & Hr0 & _)|destruct Hl as (c0 & E & _ & Hr0 & _)|destruct Hl as (c0 & it0 & E & _ & Hr0 & _)];
+    inversion E; subst; congruence.
+Qed.
+
+Definition nested_or_ref (m : nat) (p : schema) : Prop :=
+  sobj m p \/
+  exists x d u a bb, ref_prop p x /\ lookup x defs = Some d /\ lookup x sdefs = Some d /\ sobj m d /\ idf x <> [] /\
+                     lookup x env = Some u /\ gen (fuelG m a) MDeclared (Some x) false d (idf x) = Done (u, bb).
+
 Theorem nested_object_exact : forall n a b c self sub s scope t bb kv,
   scope <> [] -> sobj n s -> dok n s kv ->
   gen (fuelG n a) MDeclared self sub s scope = Done (t, bb) ->
@@ -331,37 +415,52 @@ Proof.
     cbn [sobj] in Hs. destruct Hs as (Hp & Hty & Ha & Haf & Np & Hreq & Nn & Hne & Hprops).
     cbn [dok] in Hk. destruct Hk as (Nk & Hval).
     cbn [fuelG fuelD fuelV] in *.
-    destruct (fuelD_SS m b) as [fd' Hfd]. destruct (fuelV_S m c) as [fv' Hfv]. rewrite Hfd, Hfv.
-    apply (level_with_leaves (fuelG m a) (S fd') fv' self sub s scope t bb kv (sobj m)); try assumption.
+    destruct (fuelV_SS m c) as [fv' Hfv]. rewrite Hfv.
+    apply (level_with_leaves (fuelG m a) (fuelD m b) (S fv') self sub s scope t bb kv (nested_or_ref m)); try assumption.
+    + intros k p Hin. destruct (Hprops k p Hin) as [Hl|[[Hn Hd]|Hr]]; [left; exact Hl|right; split; [left; exact Hn|exact Hd]|].
+      right. split; [right; exact Hr|]. destruct Hr as (x & d & u & a0 & b0 & Hrp & _). exact (ref_default_none p x Hrp).
     + intros k p x Hin Hl. destruct (Hval k p x Hin Hl) as (H1 & H2 & H3 & H4 & _). split; [exact H1|split; [exact H2|split; [exact H3|exact H4]]].
-    + (* a nested object: one level down *)
-      intros fname k p ty bp Hin Hinp Hnest Hfn Hgen.
-      destruct (Hprops k p Hinp) as [Hl|[_ Hdn]].
-      { (* a property that is both a leaf and an object cannot exist: its type list would be two things *)
-        exfalso. destruct m as [|m']; cbn [sobj] in Hnest; destruct Hnest as (_ & Pty & _);
-          destruct Hl as [Hl|[Hl|[Hl|[Hl|Hl]]]];
-          [destruct Hl as (c0 & -> & Ht & _)|destruct Hl as (c0 & m0 & -> & Ht & _)|destruct Hl as (c0 & -> & Ht & _)|destruct Hl as (c0 & -> & Ht & _)|destruct Hl as (c0 & it0 & -> & Ht & _)
-          |destruct Hl as (c0 & -> & Ht & _)|destruct Hl as (c0 & m0 & -> & Ht & _)|destruct Hl as (c0 & -> & Ht & _)|destruct Hl as (c0 & -> & Ht & _)|destruct Hl as (c0 & it0 & -> & Ht & _)];
-          cbn [s_con] in Pty; rewrite Ht in Pty; discriminate. }
-      pose proof Hnest as Hn0.
-      assert (Pfacts : plain_object p /\ c_types (s_con p) = [SObject] /\ s_addl p = None).
-      { destruct m as [|m']; cbn [sobj] in Hnest; destruct Hnest as (Pp & Pty & Pa & _); (split; [exact Pp|split; [exact Pty|exact Pa]]). }
-      destruct Pfacts as (Pp & Pty & Pa). pose proof Pp as (Pe & Pr & _ & _ & Pall & Pany).
-      rewrite (gen_inline_object_eq idf cf defs _ self false p (scope ++ fname) Pe Pr Pall Pany Pty) in Hgen.
-      assert (Hscn : scope ++ fname <> []) by (intros E; apply app_eq_nil in E; destruct E as [_ E]; exact (Hfn E)).
-      assert (Hshape : exists fs plan, ty = TStruct (scope ++ fname) fs plan).
-      { destruct m as [|m']; cbn [fuelG] in Hgen; exact (declared_struct_shape _ self false p (scope ++ fname) ty bp Pp Pa Hgen). }
-      destruct Hshape as (fs & plan & ->).
-      destruct (lookup k kv) as [x|] eqn:El; [|intros Hm; apply nested_field_absent; assumption].
-      destruct (Hval k p x Hinp El) as (Hnn & _ & _ & _ & Hdeep).
-      rewrite <- Hfd, <- Hfv.
-      rewrite (nested_field_present _ (s_con s) self fname k p _ fs plan bp kv x Hdn Hfn El Hnn).
-      destruct x as [| | | | |kv']; try contradiction;
-        try (rewrite dec_struct_type by (try discriminate; intros; discriminate); symmetry; rewrite Hfv; apply valid_non_object; [exact Pr|exact Pty|intros; discriminate]).
-      specialize (Hdeep kv' eq_refl Hn0).
-      destruct (mem k (c_required (s_con s))).
-      * rewrite fuelD_S. exact (IH a (S b) c self false p (scope ++ fname) _ bp kv' Hscn Hn0 Hdeep Hgen).
-      * exact (IH a b c self false p (scope ++ fname) _ bp kv' Hscn Hn0 Hdeep Hgen).
+    + intros fname k p ty bp Hin Hinp Hother Hfn Hgen. rewrite <- Hfv.
+      destruct Hother as [Hnest|(x & d & u & a0 & b0 & Hrp & Hld & Hls & Hsd & Hidf & Hlu & Hgd)].
+      * (* an object written inline: one level down *)
+        pose proof (sobj_facts m p Hnest) as (Pp & Pty & Pa). pose proof Pp as (Pe & Pr & _ & _ & Pall & Pany).
+        assert (Hdn : c_default (s_con p) = None).
+        { destruct (Hprops k p Hinp) as [Hl|[[_ Hd]|(x & d & u & a0 & b0 & Hrp & _)]];
+            [exfalso; exact (leaf_not_object p Hl Pty)|exact Hd|exact (ref_default_none p x Hrp)]. }
+        rewrite (gen_inline_object_eq idf cf defs _ self false p (scope ++ fname) Pe Pr Pall Pany Pty) in Hgen.
+        assert (Hscn : scope ++ fname <> []) by (intros E; apply app_eq_nil in E; destruct E as [_ E]; exact (Hfn E)).
+        assert (Hshape : exists fs plan, ty = TStruct (scope ++ fname) fs plan).
+        { destruct m as [|m']; cbn [fuelG] in Hgen; exact (declared_struct_shape _ self false p (scope ++ fname) ty bp Pp Pa Hgen). }
+        destruct Hshape as (fs & plan & ->).
+        destruct (lookup k kv) as [x|] eqn:El; [|intros Hm; apply nested_field_absent; assumption].
+        destruct (Hval k p x Hinp El) as (Hnn & _ & _ & _ & Hdeep).
+        rewrite (nested_field_present _ (s_con s) self fname k p _ fs plan bp kv x Hdn Hfn El Hnn).
+        destruct x as [| | | | |kv']; try contradiction;
+          try (rewrite dec_struct_type by (try discriminate; intros; discriminate); symmetry; rewrite fuelV_Sc; destruct (fuelV_SS m (S c)) as [y ->];
+               apply valid_non_object; [exact Pr|exact Pty|intros; discriminate]).
+        destruct (Hdeep kv' eq_refl) as [Hdeep1 _]. specialize (Hdeep1 Hnest). rewrite fuelV_Sc.
+        destruct (mem k (c_required (s_con s))).
+        -- rewrite !fuelD_S. exact (IH a (S (S b)) (S c) self false p (scope ++ fname) _ bp kv' Hscn Hnest Hdeep1 Hgen).
+        -- rewrite fuelD_S. exact (IH a (S b) (S c) self false p (scope ++ fname) _ bp kv' Hscn Hnest Hdeep1 Hgen).
+      * (* a reference to an object definition: the declared type of the definition, one level down *)
+        pose proof (sobj_facts m d Hsd) as (Pd & Pdty & _).
+        destruct (fuelG_SSS m a) as [g Hgm]. rewrite Hgm in Hgen.
+        pose proof (gen_ref_prop g self (scope ++ fname) p x d ty bp Hrp Hld Pd Pdty Hgen) as ->.
+        destruct (lookup k kv) as [v|] eqn:El; [|intros Hm; exact (ref_field_absent _ (s_con s) self fname k p x d bp kv Hrp Hld Pd El Hm)].
+        destruct (Hval k p v Hinp El) as (Hnn & _ & _ & _ & Hdeep).
+        rewrite (ref_field_present _ (s_con s) self fname k p x d u bp kv v Hrp Hld Pd Hlu Hfn El Hnn).
+        rewrite (valid_ref_prop _ p x d v Hrp Hls).
+        pose proof Pd as (_ & Pr & _).
+        destruct v as [| | | | |kv']; try contradiction.
+        1-4: assert (Hu : exists fs plan, u = TStruct (idf x) fs plan)
+               by (destruct m as [|m']; cbn [fuelG] in Hgd; exact (declared_struct_shape _ (Some x) false d (idf x) u b0 Pd (proj2 (proj2 (sobj_facts _ d Hsd))) Hgd));
+             destruct Hu as (fs & plan & ->);
+             rewrite dec_struct_type by (try discriminate; intros; discriminate); symmetry; destruct (fuelV_SS m c) as [y ->];
+             apply valid_non_object; [exact Pr|exact Pdty|intros; discriminate].
+        destruct (Hdeep kv' eq_refl) as [_ Hdeep2]. specialize (Hdeep2 x d Hrp Hls).
+        destruct (mem k (c_required (s_con s))).
+        -- rewrite fuelD_S. exact (IH a0 (S b) c (Some x) false d (idf x) u b0 kv' Hidf Hsd Hdeep2 Hgd).
+        -- exact (IH a0 b c (Some x) false d (idf x) u b0 kv' Hidf Hsd Hdeep2 Hgd).
 Qed.
 End Nested.
 
@@ -376,7 +475,7 @@ Definition ex_outer_bad : list (str * json) := [([111]%N, JObj [([97]%N, JStr [1
 Lemma ex_leaf_is_leaf mn mx : leaf (ex_leaf mn mx None).
 Proof. left. eexists. repeat split; reflexivity. Qed.
 
-Lemma ex_inner_sobj : sobj (fun s => s) 0 ex_inner.
+Lemma ex_inner_sobj : sobj (fun s => s) (mkCfg false false) [] [] [] 0 ex_inner.
 Proof.
   cbn [sobj]. repeat split; try reflexivity; try discriminate.
   - repeat constructor; cbn; intuition discriminate.
@@ -386,7 +485,7 @@ Proof.
   - intros k p [H|[H|[]]]; inversion H; subst; left; apply ex_leaf_is_leaf.
 Qed.
 
-Lemma ex_outer_sobj : sobj (fun s => s) 1 ex_outer.
+Lemma ex_outer_sobj : sobj (fun s => s) (mkCfg false false) [] [] [] 1 ex_outer.
 Proof.
   cbn [sobj]. repeat split; try reflexivity; try discriminate.
   - repeat constructor; cbn; intuition discriminate.
@@ -394,14 +493,14 @@ Proof.
   - vm_compute. repeat constructor; cbn; intuition discriminate.
   - intros fname kp H. vm_compute in H. destruct H as [H|[H|[]]]; inversion H; subst; discriminate.
   - intros k p [H|[H|[]]]; inversion H; subst.
-    + right. split; [exact ex_inner_sobj|reflexivity].
+    + right. left. split; [exact ex_inner_sobj|reflexivity].
     + left. apply ex_leaf_is_leaf.
 Qed.
 
 Lemma ex_dok kv : NoDup (map fst kv) ->
   (forall k x, lookup k kv = Some x -> x <> JNull /\ (forall s0, x = JStr s0 -> utf8_len s0 = length s0) /\ forall kv', x = JObj kv' ->
      NoDup (map fst kv') /\ forall k' x', lookup k' kv' = Some x' -> x' <> JNull /\ (forall s0, x' = JStr s0 -> utf8_len s0 = length s0)) ->
-  dok (fun s => s) 1 ex_outer kv.
+  dok (fun s => s) (mkCfg false false) [] [] [] 1 ex_outer kv.
 Proof.
   assert (Hnoint : forall k p, In (k, p) (s_props ex_outer) \/ In (k, p) (s_props ex_inner) -> ~ int_leaf p).
   { intros k p Hin (c & m & E & Ht & _). subst p. unfold ex_outer, ex_inner, LevelP.ex_schema, ex_leaf in Hin. cbn [s_props] in Hin.
@@ -412,7 +511,9 @@ Proof.
   intros Nk H. cbn [dok]. split; [exact Nk|]. intros k p x Hin Hl. destruct (H k x Hl) as (H1 & H2 & H3).
   split; [exact H1|]. split; [intros _; exact H2|]. split; [intros Hi; exfalso; exact (Hnoint k p (or_introl Hin) Hi)|].
   split; [intros Hi; exfalso; exact (Hnoarr k p (or_introl Hin) Hi)|].
-  intros kv' -> _. destruct (H3 kv' eq_refl) as [Nk' H']. split; [exact Nk'|]. intros k' p' x' Hin' Hl'. destruct (H' k' x' Hl') as (G1 & G2).
+  intros kv' ->. split; [|intros y d (c0 & E & Hr & _) _; exfalso; subst p; unfold ex_outer, ex_inner, LevelP.ex_schema, ex_leaf in Hin; cbn [s_props] in Hin;
+                         destruct Hin as [Hin|[Hin|[]]]; inversion Hin; subst; discriminate].
+  intros _. destruct (H3 kv' eq_refl) as [Nk' H']. split; [exact Nk'|]. intros k' p' x' Hin' Hl'. destruct (H' k' x' Hl') as (G1 & G2).
   assert (Hin2 : In (k', p') (s_props ex_inner)).
   { destruct Hin as [Hin|[Hin|[]]]; inversion Hin; subst p; [exact Hin'|destruct Hin']. }
   split; [exact G1|]. split; [intros _; exact G2|]. split; [intros Hi; exfalso; exact (Hnoint k' p' (or_intror Hin2) Hi)|].
@@ -452,7 +553,7 @@ Definition ex_flat_ok : list (str * json) := [([116]%N, JArr [JStr [97]%N; JStr 
 Definition ex_flat_long : list (str * json) := [([116]%N, JArr [JStr [97]%N; JStr [98]%N; JStr [99]%N])].     (* three items *)
 Definition ex_flat_low : list (str * json) := [([116]%N, JArr [JStr [97]%N]); ([119]%N, JQ (Qmake 1 4))].          (* w below the minimum *)
 
-Lemma ex_flat_sobj : sobj (fun s => s) 0 ex_flat.
+Lemma ex_flat_sobj : sobj (fun s => s) (mkCfg false false) [] [] [] 0 ex_flat.
 Proof.
   cbn [sobj]. repeat split; try reflexivity; try discriminate.
   - repeat constructor; cbn; intuition discriminate.
@@ -467,7 +568,7 @@ Qed.
 
 Lemma ex_flat_dok kv : NoDup (map fst kv) ->
   (forall k x, lookup k kv = Some x -> x <> JNull /\ (forall l y, x = JArr l -> In y l -> y <> JNull)) ->
-  dok (fun s => s) 0 ex_flat kv.
+  dok (fun s => s) (mkCfg false false) [] [] [] 0 ex_flat kv.
 Proof.
   intros Nk H. cbn [dok]. split; [exact Nk|]. intros k p x Hin Hl. destruct (H k x Hl) as (H1 & H2).
   assert (Hp : p = ex_tags \/ p = ex_w) by (destruct Hin as [Hin|[Hin|[]]]; inversion Hin; auto).
@@ -494,4 +595,90 @@ Proof.
   - intros k x Hl. destruct Hkv as [<-|[<-|[<-|[]]]]; vm_compute in Hl;
       repeat (match type of Hl with (if ?c then _ else _) = _ => destruct c end); inversion Hl; subst;
       (split; [discriminate|]); intros l y E Hy; inversion E; subst; cbn in Hy; intuition (subst; discriminate).
+Qed.
+
+(* ---------- non-vacuity of the reference case: {r: $ref D (required), b: string maxLength 3} with D = the inner object above ---------- *)
+Definition ex_D : str := [68]%N.
+Definition ex_defs : list (str * schema) := [(ex_D, ex_inner)].
+Definition ex_tD : gty :=
+  Eval vm_compute in match Gen.gen (fun s => s) (mkCfg false false) ex_defs (fuelG 0 0) MDeclared (Some ex_D) false ex_inner ex_D with Done (t, _) => t | _ => TIface end.
+Definition ex_env : list (str * gty) := [(ex_D, ex_tD)].
+Definition ex_refp : schema := Sch (mkC [] (Some ex_D) None [] 0 0 0 0 None None (mkBounds None None None None) None None) [] None false None [] [].
+Definition ex_refroot : schema :=
+  Sch (mkC [SObject] None None [[114]%N] 0 0 0 0 None None (mkBounds None None None None) None None)
+      [([114]%N, ex_refp); ([98]%N, ex_leaf 0 3 None)] None false None [] [].
+Definition ex_ref_doc : list (str * json) := [([114]%N, JObj LevelP.ex_doc); ([98]%N, JStr [120]%N)].
+Definition ex_ref_bad : list (str * json) := [([114]%N, JObj [([97]%N, JStr [120]%N)])].
+
+Lemma ex_inner_sobj_defs : sobj (fun s => s) (mkCfg false false) ex_defs ex_env ex_defs 0 ex_inner.
+Proof.
+  cbn [sobj]. repeat split; try reflexivity; try discriminate.
+  - repeat constructor; cbn; intuition discriminate.
+  - intros k [H|[]]. subst. left; reflexivity.
+  - vm_compute. repeat constructor; cbn; intuition discriminate.
+  - intros fname kp H. vm_compute in H. destruct H as [H|[H|[]]]; inversion H; subst; discriminate.
+  - intros k p [H|[H|[]]]; inversion H; subst; left; apply ex_leaf_is_leaf.
+Qed.
+
+Lemma ex_refroot_sobj : sobj (fun s => s) (mkCfg false false) ex_defs ex_env ex_defs 1 ex_refroot.
+Proof.
+  cbn [sobj]. repeat split; try reflexivity; try discriminate.
+  - repeat constructor; cbn; intuition discriminate.
+  - intros k [H|[]]. subst. left; reflexivity.
+  - vm_compute. repeat constructor; cbn; intuition discriminate.
+  - intros fname kp H. vm_compute in H. destruct H as [H|[H|[]]]; inversion H; subst; discriminate.
+  - intros k p [H|[H|[]]]; inversion H; subst.
+    + right. right. exists ex_D, ex_inner, ex_tD, 0. eexists.
+      split; [eexists; repeat split; reflexivity|]. split; [reflexivity|]. split; [reflexivity|]. split; [exact ex_inner_sobj_defs|].
+      split; [discriminate|]. split; [reflexivity|]. vm_compute. reflexivity.
+    + left. apply ex_leaf_is_leaf.
+Qed.
+
+Lemma ex_ref_dok kv : NoDup (map fst kv) ->
+  (forall k x, lookup k kv = Some x -> x <> JNull /\ (forall s0, x = JStr s0 -> utf8_len s0 = length s0) /\ forall kv', x = JObj kv' ->
+     NoDup (map fst kv') /\ forall k' x', lookup k' kv' = Some x' -> x' <> JNull /\ (forall s0, x' = JStr s0 -> utf8_len s0 = length s0)) ->
+  dok (fun s => s) (mkCfg false false) ex_defs ex_env ex_defs 1 ex_refroot kv.
+Proof.
+  assert (Hinner : forall kv', NoDup (map fst kv') -> (forall k' x', lookup k' kv' = Some x' -> x' <> JNull /\ (forall s0, x' = JStr s0 -> utf8_len s0 = length s0)) ->
+                    dok (fun s => s) (mkCfg false false) ex_defs ex_env ex_defs 0 ex_inner kv').
+  { intros kv' Nk' H'. cbn [dok]. split; [exact Nk'|]. intros k' p' x' Hin' Hl'. destruct (H' k' x' Hl') as (G1 & G2).
+    assert (Hp : p' = ex_leaf 2 0 None \/ p' = ex_leaf 0 3 None) by (destruct Hin' as [Hin'|[Hin'|[]]]; inversion Hin'; auto).
+    split; [exact G1|]. split; [intros _; exact G2|]. split.
+    - intros (c & m & E & Ht & _). destruct Hp as [-> | ->]; inversion E; subst c; discriminate.
+    - split; [|exact I]. intros (c & it & E & _). destruct Hp as [-> | ->]; inversion E. }
+  intros Nk H. cbn [dok]. split; [exact Nk|]. intros k p x Hin Hl. destruct (H k x Hl) as (H1 & H2 & H3).
+  assert (Hp : p = ex_refp \/ p = ex_leaf 0 3 None) by (destruct Hin as [Hin|[Hin|[]]]; inversion Hin; auto).
+  split; [exact H1|]. split; [intros _; exact H2|]. split.
+  - intros (c & m & E & Ht & _). destruct Hp as [-> | ->]; inversion E; subst c; discriminate.
+  - split.
+    + intros (c & it & E & _). destruct Hp as [-> | ->]; inversion E.
+    + intros kv' ->. destruct (H3 kv' eq_refl) as [Nk' H']. split.
+      * intros Hs. exfalso. destruct Hs as (_ & Hty & _). destruct Hp as [-> | ->]; discriminate.
+      * intros y d _ Hld. destruct Hp as [-> | ->].
+        -- assert (d = ex_inner).
+           { revert Hld. unfold ex_defs. cbn [lookup]. destruct (str_eqb y ex_D); intros E; inversion E; reflexivity. }
+           subst d. exact (Hinner kv' Nk' H').
+        -- assert (d = ex_inner).
+           { revert Hld. unfold ex_defs. cbn [lookup]. destruct (str_eqb y ex_D); intros E; inversion E; reflexivity. }
+           subst d. exact (Hinner kv' Nk' H').
+Qed.
+
+Example ref_inhabited :
+  exists t b, Gen.gen (fun s => s) (mkCfg false false) ex_defs (fuelG 1 0) MDeclared None false ex_refroot [82]%N = Done (t, b) /\
+    (forall kv, In kv [ex_ref_doc; ex_ref_bad] ->
+       is_ok (Exec.dec (fun _ _ => true) ex_env (fuelD 1 0) t (JObj kv)) = Valid.valid (fun _ _ => true) ex_defs (fuelV 1 0) ex_refroot (JObj kv)) /\
+    map (fun kv => Valid.valid (fun _ _ => true) ex_defs (fuelV 1 0) ex_refroot (JObj kv)) [ex_ref_doc; ex_ref_bad] = [true; false].
+Proof.
+  eexists. eexists. split; [vm_compute; reflexivity|].
+  assert (Hgen : Gen.gen (fun s => s) (mkCfg false false) ex_defs (fuelG 1 0) MDeclared None false ex_refroot [82]%N = Done _) by (vm_compute; reflexivity).
+  split; [|vm_compute; reflexivity].
+  intros kv Hkv.
+  eapply (nested_object_exact (fun s => s) (mkCfg false false) ex_defs (fun _ _ => true) ex_env ex_defs eq_refl eq_refl 1 0 0 0 None false ex_refroot [82]%N _ _ kv); [discriminate|exact ex_refroot_sobj| |exact Hgen].
+  apply ex_ref_dok.
+  - destruct Hkv as [<-|[<-|[]]]; repeat constructor; cbn; intuition discriminate.
+  - intros k x Hl. destruct Hkv as [<-|[<-|[]]]; vm_compute in Hl;
+      repeat (match type of Hl with (if ?c then _ else _) = _ => destruct c end); inversion Hl; subst;
+      (split; [discriminate|]); (split; [intros s0 E; inversion E; reflexivity|]); intros kv' E; inversion E; subst;
+      (split; [repeat constructor; cbn; intuition discriminate|]); intros k' x' Hl'; vm_compute in Hl';
+      repeat (match type of Hl' with (if ?c then _ else _) = _ => destruct c end); inversion Hl'; subst; (split; [discriminate|]); intros s0 E'; inversion E'; reflexivity.
 Qed.
